@@ -185,8 +185,12 @@ func C03(o *core.Options) int {
 							}
 							if vd := e2.Verdict(v.V, strong, weak); vd != "" {
 								sg := "v2/" + e2.DecisionSignature(vd, w, n.Obj, n.Rel, rc)
-								if vd == "V2-wrong-deny" && recursiveThroughUsersetAndTTU(w.M, ref.TypeOf(n.Obj), n.Rel) {
-									sg += "/relation-recursive-through-userset-and-ttu"
+								if vd == "V2-wrong-deny" || vd == "V3-missed-failure" {
+									if recursiveThroughUsersetAndTTU(w.M, ref.TypeOf(n.Obj), n.Rel) {
+										sg += "/relation-recursive-through-userset-and-ttu"
+									} else if w.M.RecursiveConstructs(ref.TypeOf(n.Obj), n.Rel) >= 2 {
+										sg += "/nested-recursive-relations"
+									}
 								}
 								sigs = append(sigs, sg)
 							}
@@ -208,6 +212,8 @@ func C03(o *core.Options) int {
 								}
 								if v.V == "F" && recursiveThroughUsersetAndTTU(w.M, ref.TypeOf(n.Obj), n.Rel) {
 									excl += "/relation-recursive-through-userset-and-ttu"
+								} else if v.V == "F" && w.M.RecursiveConstructs(ref.TypeOf(n.Obj), n.Rel) >= 2 {
+									excl += "/nested-recursive-relations"
 								}
 								sigs = append(sigs, fmt.Sprintf("unreported-divergence/v2=%s-v1=%s/%s-subject%s", v.V, d1.V, kind, excl))
 							} else {
@@ -223,7 +229,13 @@ func C03(o *core.Options) int {
 					} else {
 						r.Count("v2_not_decided_requests", 1)
 					}
-					if vd := e2.Verdict(srv.V, strong, weak); !allowedSrv[srv.V] && vd != "" {
+					if kind != "object" && !allowedSrv[srv.V] && srv.V != "ERR" && d1.V != "ERR" && srv.V != d1.V {
+						// userset/wildcard subject: the flag-on server took the v2 path with an answer none of the
+						// raw runs gave (timing dependent); judge it by the detector rule, not by the reference
+						if !(srv.V == "F" && tuple.IsObjectRelation(sub) && v2breaking.CheckReason(pm.ts, tk) != "") {
+							sigs = append(sigs, fmt.Sprintf("unreported-divergence/v2=%s-v1=%s/%s-subject", srv.V, d1.V, kind))
+						}
+					} else if vd := e2.Verdict(srv.V, strong, weak); kind == "object" && !allowedSrv[srv.V] && vd != "" {
 						// the flag-on server gave an answer none of the enumerated raw runs gave (the engine's
 						// first-arrival rule makes error-vs-false timing dependent): classify it like a raw answer
 						uneval := false
